@@ -8,22 +8,25 @@ if [ "$ROUND" = "1" ]; then SRC=/tmp/wt_$P/seed_out; TAG=$P-$K; else SRC=/tmp/wt
 WT=/tmp/sv_${TAG}
 OUT=/verif/seeded/$TAG
 [ -f $SRC/patch$K.diff ] || { echo "no patch $SRC/patch$K.diff"; exit 3; }
+# a patch already kept under /verif/seeded/<tag>/ (e.g. rebased onto a later /repo HEAD) takes precedence
+PATCH=$SRC/patch$K.diff
+[ -f $OUT/patch.diff ] && PATCH=$OUT/patch.diff
 rm -rf $WT; git -C /repo worktree add -q --detach $WT HEAD || exit 3
 cd $WT
-res_apply=ok; git apply $SRC/patch$K.diff || res_apply=fail
+res_apply=ok; git apply $PATCH || res_apply=fail
 tests=$(PYTHONPATH=$WT timeout 900 /venv/bin/python -m pytest -q -p no:cacheprovider tests 2>&1 | tail -1)
 # the demonstration runs in the worktree it was written for (some demos assert their own path):
 # that worktree is clean (the sub-agent is finished); apply the patch there, run, and undo
 ORIG=$(dirname $SRC)
 LOCK=/tmp/seedlock_$(basename $ORIG)
-flock $LOCK sh -c "cd $ORIG && git checkout -q -- . && git apply $SRC/patch$K.diff && PYTHONPATH=$ORIG timeout 600 /venv/bin/python seed_out/demo$K.py > $WT/demo_with.log 2>&1; rc=\$?; git checkout -q -- .; exit \$rc"; demo_with=$?
+flock $LOCK sh -c "cd $ORIG && git checkout -q -- . && git apply $PATCH && PYTHONPATH=$ORIG timeout 600 /venv/bin/python seed_out/demo$K.py > $WT/demo_with.log 2>&1; rc=\$?; git checkout -q -- .; exit \$rc"; demo_with=$?
 # run all checks on the changed tree, in parallel
 mkdir -p $WT/chk
 ls /verif/sa/checks | sed -n 's/^\(c[0-9][0-9]\)\.py$/\1/p' | tr a-z A-Z | xargs -P 10 -I{} sh -c "cd /verif && timeout 900 /venv/bin/python sa/run.py {} --repo $WT --scratch > $WT/chk/{}.log 2>&1; echo \$? > $WT/chk/{}.rc"
 git checkout -q -- .
 flock $LOCK sh -c "cd $ORIG && git checkout -q -- . && PYTHONPATH=$ORIG timeout 600 /venv/bin/python seed_out/demo$K.py > $WT/demo_without.log 2>&1"; demo_without=$?
 mkdir -p $OUT
-cp $SRC/patch$K.diff $OUT/patch.diff; cp $SRC/demo$K.py $OUT/demo.py; cp $SRC/notes$K.md $OUT/notes.md 2>/dev/null
+[ -f $OUT/patch.diff ] || cp $SRC/patch$K.diff $OUT/patch.diff; cp $SRC/demo$K.py $OUT/demo.py; cp $SRC/notes$K.md $OUT/notes.md 2>/dev/null
 : > $OUT/checks.txt
 fired=""; undec=""
 for f in $WT/chk/*.rc; do id=$(basename $f .rc); rc=$(cat $f); 
